@@ -582,12 +582,20 @@ func c12Peer(c *vf.Case) {
 		case 0:
 			op = "Join(" + g + ")"
 			if err = p.Join(multicast.IP(g)); err == nil {
-				st.mode, st.blocked, st.sources = 1, map[string]bool{}, map[string]bool{}
+				if st.mode == 1 {
+					// joining a group that is already joined (the kernel normally refuses it): whatever the call returns,
+					// it is not an UnblockSource - sources blocked on this membership stay blocked
+					c.Count("joins_of_an_already_joined_group_that_succeeded", 1)
+				} else {
+					st.mode, st.blocked, st.sources = 1, map[string]bool{}, map[string]bool{}
+				}
 			}
 		case 1:
 			op = "JoinOn(" + g + "," + ifname + ")"
 			if err = p.JoinOn(multicast.IP(g), multicast.InterfaceName(ifname)); err == nil {
-				st.mode, st.blocked, st.sources = 1, map[string]bool{}, map[string]bool{}
+				if st.mode != 1 {
+					st.mode, st.blocked, st.sources = 1, map[string]bool{}, map[string]bool{}
+				}
 			}
 		case 2:
 			op = "JoinSource(" + g + "," + src + ")"
@@ -817,6 +825,7 @@ func c12PeerUnicast(c *vf.Case, ioc *sonic.IO, p *multicast.UDPPeer) {
 		return
 	}
 	defer syscall.Close(peer2)
+	peer3, pport3 := -1, 0
 	gen := r.U64()
 	for i := 0; i < r.Range(3, 20) && !c.Failed(); i++ {
 		n := []int{1, 2, 1472, 1473, 8192, 65507}[r.Intn(6)]
@@ -861,6 +870,21 @@ func c12PeerUnicast(c *vf.Case, ioc *sonic.IO, p *multicast.UDPPeer) {
 				dstFd, dstPort, otherFd = peer2, pport2, peer
 			}
 			to := netip.AddrPortFrom(netip.AddrFrom4(ip), uint16(dstPort))
+			if ip == [4]byte{127, 0, 0, 1} && r.Chance(1, 3) {
+				// the destination as the net package hands it out: an IPv4-mapped IPv6 address (::ffff:127.0.0.2), to a
+				// receiver on another loopback address than the one "this host" resolves to
+				if peer3 < 0 {
+					peer3, pport3, err = rawpeer.UDP4([4]byte{127, 0, 0, 2})
+					if err != nil {
+						c.Failf("harness-setup", "%v", err)
+						return
+					}
+					defer func() { syscall.Close(peer3) }()
+				}
+				dstFd, dstPort, otherFd = peer3, pport3, peer
+				to = (&net.UDPAddr{IP: net.IPv4(127, 0, 0, 2), Port: pport3}).AddrPort()
+				c.Count("writes_to_an_ipv4_mapped_destination", 1)
+			}
 			calls := 0
 			var werr error
 			var wn int
